@@ -21,6 +21,7 @@ import Dtn7.Lemmas.NodeSkip
 import Dtn7.Lemmas.NodeFull
 import Dtn7.Lemmas.NodeFullDirect
 import Dtn7.Gen.C05
+import Dtn7.Lemmas.NodeReenable
 
 namespace Dtn7.Props.C05
 open Dtn7.Node
@@ -465,6 +466,32 @@ theorem direct_during_another_run (env env' : Env) (d : Desc) (b : Bundle) (n : 
     exact e3.trans (e2.trans e1)
   have hce : m.cfg = n.cfg := (k3.only.env.cfg).trans ((k2.only.env.cfg).trans k1.only.env.cfg)
   exact checkPending_direct env' m wm (by rw [hpe]; exact hn) k it hg c (hce.trans hc) hw p hp hs hgate
+
+/-- **A peer whose transmission failed is offered the bundle again** (`failed_peer_leaves_sent_list`, epidemic
+routing, one `forward`, any number of chosen peers, any outcomes): after the per-peer transmissions every peer
+whose `Send` failed is out of the bundle's sent list — also when other transmissions of the same attempt
+succeeded —, every other entry is still there and nothing was added. So the next `peerUp`/retry offers the
+bundle to exactly the peers that do not have it (`epidemic_floods` reads the list). The driver judges the same
+on the implementation after every event (`c05FailX`). -/
+theorem failed_peer_leaves_sent_list (env : Env) (d : Desc) (b : Bundle) (ps : List Peer) (n : Node) (it : Item)
+    (ha : n.cfg.algo = .epidemic) (hg : n.store.get d.key = some it) (hn : it.rt.sentE.Nodup) :
+    ∃ it', (sendAll env d b ps n).1.store.get d.key = some it' ∧ it'.rt.sentE.Nodup ∧
+      (∀ p, Output.sent p b false ∈ (sendAll env d b ps n).2.1 → p.eid ∉ it'.rt.sentE) ∧
+      (∀ e ∈ it.rt.sentE, (∀ p, Output.sent p b false ∈ (sendAll env d b ps n).2.1 → p.eid ≠ e) → e ∈ it'.rt.sentE) ∧
+      (∀ e ∈ it'.rt.sentE, e ∈ it.rt.sentE) :=
+  sendAll_failed_unlisted env d b ps n it ha hg hn
+
+/-- Not vacuous: peers 2.0 (succeeds) and 3.0 (fails) were both entered by `filterCLAs`; afterwards 3.0 is out. -/
+example :
+    let c : Cfg := { self := 1, algo := .epidemic, mule := false, sensorNodes := [], sprayL := 3, bcast := ⟨999, 0⟩,
+                     seqFirst := true, skipStored := true, expiryNow := true, dtlsrFail := true, holdFix := true,
+                     gateDirect := true }
+    let env : Env := { sendOk := fun a _ _ => a == 1, prefer := fun _ _ => [], cand := fun _ _ => false }
+    let b : Bundle := { tag := 1, src := ⟨1, 0⟩, ts := 900, seq := 0, dst := ⟨5, 0⟩, prev := none, lifetime := 3600,
+                        hop := none, age := none, delBlock := false, bsCopies := none }
+    let n := (run env (init c 1000) [.peerUp ⟨1, ⟨2, 0⟩⟩, .peerUp ⟨2, ⟨3, 0⟩⟩, .submit b])
+    (n.store.get ⟨⟨1, 0⟩, 900, 0⟩).map (·.rt.sentE) = some [⟨2, 0⟩] := by
+  decide
 
 /-- **Concurrent failures** (`concurrent_failures_both_recorded`): with the mutex, for every number of
 failing transmissions and EVERY schedule of the failure reports' micro-steps: once all reports are done,
